@@ -246,6 +246,16 @@ func TestC15(t *testing.T) {
 			})
 		}
 	}
+	// the application edits the copy of the reattach configuration it was given (an observer's copy marked Test, another
+	// namespace's address) before it asks the client for the configuration again: the second one is the plugin's, unedited
+	for _, proto := range []string{"netrpc", "grpc"} {
+		cells = append(cells, Cell{
+			Name:   fmt.Sprintf("edited-copy %s the first ReattachConfig() result is edited by the application, the second is used", proto),
+			Plugin: PluginConf{CookieKey: cookieKey, CookieValue: cookieVal, Legacy: 1, LegacyProto: proto, GRPCServer: true, TLS: "none"},
+			Host:   HostConf{Allowed: []string{"netrpc", "grpc"}, TLS: "none", Launch: "cmd", Legacy: 1},
+			Ops:    []string{"new", "start", "client", "dispense", "set:7", "scribble:0", "reattach:0", "start", "client", "dispense", "get", "kill:1", "pidgone"},
+		})
+	}
 	results := runCells(base, cells)
 	out := &enumResult{Exhaustive: true, Outcomes: map[string]int{}, States: len(states), Transitions: transitions * 2}
 	for i, r := range results {
